@@ -41,12 +41,14 @@ static int disk_index(struct snapraid_disk *disk)
 	return 0;
 }
 
-block_off_t fs_size(struct snapraid_disk *disk) { return IN.size[disk_index(disk)]; }
+static block_off_t v_fs_size(struct snapraid_disk *disk) { return IN.size[disk_index(disk)]; }
 
-struct snapraid_block *fs_par2block_find(struct snapraid_disk *disk, block_off_t pos)
+static struct snapraid_block *v_fs_par2block_find(struct snapraid_disk *disk, block_off_t pos)
 {
 	int d = disk_index(disk);
+#ifndef VERIF_ALLOW_BEYOND
 	VERIF_ASSERT(pos < IN.size[d], "only positions below fs_size are looked up");
+#endif
 	if (pos >= NP || IN.st[d][pos] == 0)
 		return BLOCK_NULL;
 	return BLOCK_AT(d, pos);
@@ -59,7 +61,12 @@ void os_abort(void) { __CPROVER_assume(0); }
 void *malloc_nofail(size_t size) { void *q = malloc(size); __CPROVER_assume(q != 0); return q; }
 #endif
 
+/* inside the included text the two block-map queries are routed to the stubs above (same in cbmc and native mode) */
+#define fs_size v_fs_size
+#define fs_par2block_find v_fs_par2block_find
 #include "cmdline/parity.c"
+#undef fs_size
+#undef fs_par2block_find
 
 static struct snapraid_state ST;
 
@@ -113,6 +120,32 @@ void h_allocated_size(void)
 			if (d < IN.ndisk && (IN.st[d][p] == BLOCK_STATE_BLK || IN.st[d][p] == BLOCK_STATE_REP || IN.st[d][p] == BLOCK_STATE_CHG) && (block_off_t)p + 1 > want)
 				want = p + 1;
 	VERIF_ASSERT(r == want, "the allocated parity size is one past the last block that belongs to a file (BLK / REP / CHG) on any disk");
+	VERIF_CANARY();
+}
+
+
+/* parity_is_invalid (REAL): "a previous sync was incomplete" - some stripe below the allocated size holds a file block and a
+ * block whose parity is not valid (CHG / REP / DELETED), on the same or on different disks */
+void h_is_invalid(void)
+{
+	int d, p, r, want = 0;
+	VERIF_INPUTS();
+	setup();
+	r = parity_is_invalid(&ST);
+	for (p = 0; p < NP; ++p) {
+		int has_file = 0, has_invalid = 0;
+		for (d = 0; d < ND; ++d)
+			if (d < IN.ndisk) {
+				unsigned s = IN.st[d][p];
+				if (s == BLOCK_STATE_BLK || s == BLOCK_STATE_CHG || s == BLOCK_STATE_REP)
+					has_file = 1;
+				if (s == BLOCK_STATE_CHG || s == BLOCK_STATE_REP || s == BLOCK_STATE_DELETED)
+					has_invalid = 1;
+			}
+		if (has_file && has_invalid)
+			want = 1;
+	}
+	VERIF_ASSERT(r == want, "the array needs a sync iff some stripe holds a file block and a block without valid parity");
 	VERIF_CANARY();
 }
 
